@@ -107,6 +107,9 @@ type api struct {
 // List populates a slice of Models given as parameter based on the configured Condition
 func (a api) List(ctx context.Context, result interface{}) error {
 	resultPtr := reflect.ValueOf(result)
+	if !resultPtr.IsValid() {
+		return &ErrWrongType{reflect.TypeOf((*interface{})(nil)).Elem(), "Expected pointer to slice of valid Models, got nil"}
+	}
 	if resultPtr.Type().Kind() != reflect.Ptr {
 		return &ErrWrongType{resultPtr.Type(), "Expected pointer to slice of valid Models"}
 	}
